@@ -104,6 +104,7 @@ type Piece struct {
 type Case struct {
 	Engine string    `json:"engine"`
 	Pages  uint32    `json:"pages"`
+	CapMax bool      `json:"cap_from_max,omitempty"` // WithMemoryCapacityFromMax(true), guest max = pages+1
 	Sock   bool      `json:"sock"`
 	State  []StateOp `json:"state"`
 	Fill   uint8     `json:"fill"`
@@ -129,22 +130,29 @@ var (
 	caseSeq int
 )
 
-func compiledFor(engine string, pages uint32) (wazero.Runtime, wazero.CompiledModule, error) {
-	rt := rts[engine]
+func compiledFor(engine string, pages uint32, capMax bool) (wazero.Runtime, wazero.CompiledModule, error) {
+	rk := fmt.Sprintf("%s/%v", engine, capMax)
+	rt := rts[rk]
 	if rt == nil {
-		rt = wazero.NewRuntimeWithConfig(bg, wz.Config(engine))
+		rt = wazero.NewRuntimeWithConfig(bg, wz.Config(engine).WithMemoryCapacityFromMax(capMax))
 		s, n, err := wasiproxy.Signatures(bg, rt)
 		if err != nil {
 			return nil, nil, err
 		}
 		sigs, names = s, n
-		rts[engine] = rt
+		rts[rk] = rt
 	}
-	k := fmt.Sprintf("%s/%d", engine, pages)
+	k := fmt.Sprintf("%s/%d", rk, pages)
 	cm := cms[k]
 	if cm == nil {
+		// capMax: the guest declares one page more than it starts with, and the runtime reserves
+		// it up front: the buffer's capacity exceeds the guest-visible size by 64 KiB
+		max := int64(pages)
+		if capMax {
+			max++
+		}
 		var err error
-		cm, err = rt.CompileModule(bg, wasiproxy.Binary(sigs, names, pages, int64(pages)))
+		cm, err = rt.CompileModule(bg, wasiproxy.Binary(sigs, names, pages, max))
 		if err != nil {
 			return nil, nil, err
 		}
@@ -408,7 +416,7 @@ func freePort() (int, error) {
 
 // setup builds the world of a case and runs its state prefix.
 func setup(c *Case) (*world, error) {
-	rt, cm, err := compiledFor(c.Engine, c.Pages)
+	rt, cm, err := compiledFor(c.Engine, c.Pages, c.CapMax)
 	if err != nil {
 		return nil, err
 	}
@@ -776,6 +784,9 @@ func uncovered(before, after []byte, regions []wasiabi.Region) (from, to int, an
 		if r.Len == 0 || r.Off >= uint64(n) {
 			continue
 		}
+		if r.Fixed && r.Off+r.Len > uint64(n) {
+			continue // a fixed-size result that does not fit is not stored at all: no partial store
+		}
 		end := r.Off + r.Len
 		if end > uint64(n) {
 			end = uint64(n)
@@ -909,6 +920,21 @@ func (w *world) runCallInner(c *Case) (r result) {
 			head, errno, from, to, rs, len(snap), snap[from:min(to, from+32)], after[from:min(to, from+32)])
 		return
 	}
+	if c.CapMax && out.Kind != wz.KExit {
+		// the reserved part of the buffer is not guest memory: the page the guest gets from
+		// memory.grow must be zero whatever the call was given
+		if prev, ok := w.p.Mem.Grow(1); ok && prev == c.Pages {
+			if np, ok := w.p.Mem.Read(c.Pages<<16, 1<<16); ok {
+				for i, b := range np {
+					if b != 0 {
+						r.Msg = fmt.Sprintf("%s (errno %d) stored into the reserved part of the memory buffer beyond the guest-visible size: after memory.grow the fresh page is not zero at %#x: % x",
+							head, errno, int(c.Pages<<16)+i, np[i:min(i+16, len(np))])
+						return
+					}
+				}
+			}
+		}
+	}
 	if out.Kind == wz.KOK && errno == 0 {
 		for i, p := range fn.Params {
 			if p.Role == wasiabi.PtrOut && uint64(uint32(c.Args[i]))+uint64(p.Size) > uint64(len(after)) {
@@ -1009,7 +1035,7 @@ func TestTableMatchesExports(t *testing.T) {
 	if evid.ReplayPath() != "" {
 		t.Skip()
 	}
-	if _, _, err := compiledFor("interpreter", 1); err != nil {
+	if _, _, err := compiledFor("interpreter", 1, false); err != nil {
 		t.Fatal(err)
 	}
 	if len(wasiabi.Table) != 46 || len(names) != len(wasiabi.Table) {
